@@ -171,6 +171,19 @@ def run_r4(chk: Check, prog: Program) -> None:
                 chk.verdict(not problems, "C06.R4", key, label, "; ".join(problems), witness={"answers": label}, where=where)
 
 
+class _NoRuleDecl:
+    """A shared clause declares its own rules; under another property the rule is declared once by the caller."""
+
+    def __init__(self, chk):
+        self._chk = chk
+
+    def __getattr__(self, name):
+        return getattr(self._chk, name)
+
+    def rule(self, rid, text, minimum=1):
+        pass
+
+
 def run(chk: Check) -> None:
     prog = program(chk)
     chk.technique = "abstract interpretation (effect log per classifier path, raise outcomes per case) over the " \
@@ -182,12 +195,23 @@ def run(chk: Check) -> None:
         "using the may-raise facts of the operator table) and the change returned carries a node; (R4) find_nodes / "
         "find_node, interpreted over an abstract in-order sequence of three nodes with an opaque applicability "
         "answer per node, record r_index 0,1,2 before asking, return exactly the applicable nodes in order, never "
-        "stop early / stop right after the first match. Not decided: behaviour on ill-formed trees; the in-order "
+        "stop early / stop right after the first match; (R5) clone() / clone_from_root(), summarised in R2, conform to the "
+        "summary (the clauses C13.R2-R4). Not decided: behaviour on ill-formed trees; the in-order "
         "traversal itself (C14).")
     chk.assumptions = ["W (well-formed input trees)", "visit_inorder calls the visitor once per node in in-order and "
                        "honours STOP (C14)", "operator may-raise table from C05"]
     recs = rule_records(chk)
     run_r1_r2(chk, recs)
     run_r4(chk, prog)
+    # R2 takes clone() / clone_from_root() by their contract (a copy, no exception): the clauses of C13 that check the
+    # source against that contract run under this property as well, since 'applying completes without raising' rests on it
+    from sa.summaries import Summaries
+    from .c13 import run_r2 as clone_clause, run_r4 as clone_from_root_clause
+    S_ = Summaries(prog)
+    proxy = chk.renamed({"C13.R2": "C06.R5", "C13.R3": "C06.R5", "C13.R4": "C06.R5"})
+    chk.rule("C06.R5", "clone() and clone_from_root(), which the rules call, return a copy and never raise on a well-formed tree "
+             "(clauses C13.R2-R4)", minimum=100)
+    clone_clause(_NoRuleDecl(proxy), prog, S_)
+    clone_from_root_clause(_NoRuleDecl(proxy), prog, S_)
     chk.exhaustive = True
     chk.max_undecided = 0
